@@ -232,7 +232,12 @@ class TCPPacketGenerator(Device, OutMixIn):
             if self.flow.size is not None and self.next_seq >= self.flow.size:
                 return
 
-            while self.next_seq >= self.send_buffer:
+            # fetch application data until a full segment is buffered (the
+            # application may hand it over in chunks of any size) or the
+            # flow has no more
+            while self.next_seq + self.mss > self.send_buffer and (
+                self.flow.size is None or self.send_buffer < self.flow.size
+            ):
                 # retrieving more packets from the application-layer flow
                 if self.flow.arrival_dist:
                     # if the flow has an arrival distribution, wait for the next arrival
@@ -247,10 +252,10 @@ class TCPPacketGenerator(Device, OutMixIn):
                 if self.flow.size_dist:
                     packet_size = self.flow.size_dist()
                 else:
-                    if self.flow.size is not None:
-                        packet_size = min(self.mss, self.flow.size - self.next_seq)
-                    else:
-                        packet_size = self.mss
+                    packet_size = self.mss
+                if self.flow.size is not None:
+                    # never more than the flow has left
+                    packet_size = min(packet_size, self.flow.size - self.send_buffer)
                 self.send_buffer += packet_size
 
             #     acked        sent         buffered
